@@ -158,6 +158,7 @@ NCP_FIELDS_LARGE = {
 #   ( fmt, name )      fixed field, little-endian struct format unless prefixed '>' ; name = the field's meaning (compared with the
 #                      last path components of where the parser stores it / the producer takes it from)
 #   ( 'pad', n )       n reserved / pad octets
+#   ( 'text_fixed', name, n )   text in a fixed field of n octets, NUL padded ( producer side only )
 #   ( kind, name )     variable part: 'EPATH', 'EPATH_padded', 'route_path', 'status', 'data' (typed or raw payload), 'CPF', 'SSTRING'
 #   ( 'repeat', [ ... ] )   counted repetition of the inner layout
 #   ( 'opt', [ ... ] ) optional tail
@@ -185,6 +186,9 @@ MESSAGE_LAYOUTS = {
     ( 'class', 'identity_object' ):	[ [ ( '<H', 'version' ), ( '>h', 'sin_family' ), ( '>H', 'sin_port' ), ( '>I', 'sin_addr' ), ( 'pad', 8 ),
                                             ( '<H', 'vendor_id' ), ( '<H', 'device_type' ), ( '<H', 'product_code' ), ( '<H', 'product_revision' ),
                                             ( '<H', 'status_word' ), ( '<I', 'serial_number' ), ( 'SSTRING', 'product_name' ), ( 'B', 'state' ) ] ],
+    # Vol 2, 2-4.6.3 ListServices reply item ( type 0x100 ): protocol version, capability flags, name of service = ARRAY[16] of USINT
+    # ( "Communications" NUL-padded to the fixed 16 octets; item length 0x14 )
+    ( 'class', 'communications_service' ):	[ [ ( '<H', 'version' ), ( '<H', 'capability' ), ( 'text_fixed', 'service_name', 16 ) ] ],
     ( 'class', 'status' ):		[ [ ( 'B', '' ), ( 'B', 'ext.size' ) ],
                                           [ ( 'B', '' ), ( 'B', 'ext.size' ), ( 'repeat', [ ( '<H', 'ext' ) ] ) ] ],
     ( 'service', 'Logix', 0x4C ):	[ [ _svc(), ( 'EPATH', 'path' ), ( '<H', 'elements' ) ] ],
